@@ -99,6 +99,13 @@ claim("C16", "exploration",
       "Trusted: ring's AES-GCM; the region map (from the specification's wire layout) of what is authenticated. Alterations are single-byte XOR masks and whole-field replacements, not adaptive forgeries.",
       "DESIGN.md section 2, C16")
 
+claim("C17", "exploration",
+      "fault-injection / differential property-based testing of the receive path: generated protection configurations and generated mixes of plaintext, wrongly protected, malformed and correctly protected traffic are injected into a real MessageReceiver with real SecurityPlugins; the oracle is a decision table written from the property",
+      "A rig node (real MessageReceiver, Readers, Writer, SecurityPlugins with the real CryptographicBuiltin) with RTPS protection NONE/SIGN/ENCRYPT, 2-3 user readers and a user writer with generated submessage / payload protection, the three exempt built-in readers and the SEDP publications reader. A key-exchanged peer's plugins produce correct payload / submessage / message protection; the generator also sends plaintext, payloads under another writer's key, wrappers made with another endpoint's keys, broken prefix/body/postfix sequences, ENTITYID_UNKNOWN addressing, INFO_DST. "
+      "Violation: a DATA reaches a reader's TopicCache (or an ACKNACK the ack-nack channel) although a required layer was missing or made with other keys (bypass); a protected payload is delivered altered; traffic carrying exactly the required protection (or plaintext to an unprotected endpoint, or plaintext to the three exempt topics under RTPS protection) is not delivered.",
+      "Trusted: the decision table in incrate/c17_gate.rs; authentication / access control are stubs (never consulted by the gating code). Payload protection is taken to cover the serialized payload only (a DATA without payload is not generated).",
+      "DESIGN.md section 2, C17")
+
 claim("C02", "exploration",
       "fault-injection property-based testing: generated fault plans (drop / duplicate / delay per datagram) over a bounded run of a real Writer and 1-2 real Readers, followed by fault-free rounds; liveness decided as a fixpoint test on a projection of the protocol state, plus a quietness check",
       "A generated fault plan decides the fate of every datagram (DATA, DATAFRAG, HEARTBEAT, GAP, ACKNACK, NACKFRAG) exchanged between a real reliable Writer and real reliable Readers during generated writes / heartbeat ticks / timer steps / cache cleanings. Then faults stop and rounds {heartbeat tick, deliver all, fire timers to quiescence} run. "
